@@ -24,7 +24,7 @@ EXTENDS Integers, Sequences, FiniteSets, TLC, SequencesExt
 
 Carries == {"ns", "na", "mi", "long", "np3n"}
 Edges == { <<"ns", "np3">>, <<"na", "np3">>, <<"np3", "ns">>, <<"np3", "na">>,
-           <<"ns", "mi">>, <<"na", "mi">>, <<"mi", "ns">>, <<"mi", "np3">>, <<"np3", "mi">>,
+           <<"ns", "mi">>, <<"na", "mi">>, <<"mi", "ns">>, <<"mi", "na">>, <<"mi", "np3">>, <<"np3", "mi">>,
            <<"ns", "long">>, <<"na", "long">>, <<"long", "ns">>,
            <<"ns", "t2">>, <<"t2", "ns">>, <<"np3", "t2">>,
            <<"ns", "np3n">>, <<"na", "np3n">>, <<"mi", "np3n">>, <<"np3n", "ns">>, <<"np3n", "na">>, <<"np3n", "mi">> }
